@@ -359,7 +359,8 @@ Inductive op : Type :=
 | OUnion (l : list op)
 | OClosure (id : option nat) (c : op)
 | OFinClosure (id : option nat) (c : op)
-| OQuestion (c : op).
+| OQuestion (c : op)
+| OMark.            (* O_CAPTURE (non-schema dialect): no effect on the offset; what follows a closure is "some other op" *)
 
 (** what doTokenOverlap looks at in the op that follows a closure *)
 Inductive hd : Type := HNull | HChar (c : N) | HString (s : list N) | HRange (neg : bool) (r : list rng) | HOther.
@@ -377,7 +378,7 @@ Fixpoint head_of (o : op) (nh : hd) : hd :=
   | OString s => HString s
   | OCat a b => head_of a (head_of b nh)
   | _ => HOther
-  end.
+  end.     (* OMark: an O_CAPTURE op, neither range nor char nor string: HOther *)
 
 (** Token::getMinLength (a T_STRING counts its characters; only "== 0" is ever used) *)
 Fixpoint minlen (t : tok) : nat :=
@@ -425,6 +426,7 @@ Definition overlap (fx : bool) (h : hd) (t : tok) : bool :=
 
 Section Compile.
 Variable w : sw.
+Variable cap : bool.     (* groups capture (RegxParser numbers them; ParserForXMLSchema uses group number 0 = transparent) *)
 
 (** [rep_front n c rest nh]: n copies of the child compiled in front of [rest] (the loops [ret = compile(childTok, ret)]) *)
 Fixpoint compile (t : tok) (nh : hd) (id : nat) {struct t} : op * nat :=
@@ -434,7 +436,10 @@ Fixpoint compile (t : tok) (nh : hd) (id : nat) {struct t} : op * nat :=
   | TChar c => (OChar c, id)
   | TString s => (OString s, id)
   | TRange n r => (ORange n r, id)
-  | TParen t1 => compile t1 nh id
+  | TParen t1 =>
+      (* compileParenthesis: capture(n) -> child -> capture(-n) -> next *)
+      if cap then let (o1, id1) := compile t1 HOther id in (OCat OMark (OCat o1 OMark), id1)
+      else compile t1 nh id
   | TConcat l =>
       (fix go (l : list tok) : op * nat :=
          match l with
@@ -512,8 +517,16 @@ Fixpoint prefix_at (s : list N) (off : nat) (lit : list N) : bool :=
 Definition slot_is (st : offs) (i off : nat) : bool :=
   match nth_error st i with Some (Some v) => Nat.eqb v off | _ => false end.
 
+(** matchDot outside schema mode: any character with option s; otherwise not an end-of-line character
+    (LF CR U+2028 U+2029; before the repair 5dcc74f the code point was truncated to 16 bits first) *)
+Definition xp_dot (fx sl : bool) (c : N) : bool :=
+  if sl then true
+  else if fx then negb ((c =? 10) || (c =? 13) || (c =? 0x2028) || (c =? 0x2029)) else negb (eol16 c).
+
 Section Match.
 Variable w : sw.
+Variable xp : bool.      (* the XPath-flavoured dialect (no XMLSCHEMA_MODE) *)
+Variable sl : bool.      (* option s (SINGLE_LINE) *)
 Variable s : list N.
 
 Definition limit : nat := length s.
@@ -532,7 +545,8 @@ Fixpoint omatch (fuel : nat) (o : op) (k : kont) (off : nat) (st : offs) {struct
     match o with
     | OEmpty => k off st
     | OChar c => one_char (N.eqb c) k off st
-    | ODot => one_char (dot_ok (fx_dot w)) k off st
+    | ODot => one_char (if xp then xp_dot (fx_dot w) sl else dot_ok (fx_dot w)) k off st
+    | OMark => k off st
     | ORange neg r => one_char (rt_match neg r) k off st
     | OString lit => if prefix_at s off lit then k (off + length lit)%nat st else MR None st
     | OCat a b => omatch f a (fun o' st' => omatch f b k o' st') off st
@@ -599,12 +613,26 @@ End Match.
 Inductive xres : Type := XTrue | XFalse | XDiverge.
 
 Definition xmatch_tok (w : sw) (fuel : nat) (t : tok) (s : list N) : xres :=
-  let (o, nclos) := compile w t HNull 0 in
-  match omatch w s fuel o (fun o' st' => MR (Some o') st') 0 (repeat None nclos) with
+  let (o, nclos) := compile w false t HNull 0 in
+  match omatch w false false s fuel o (fun o' st' => MR (Some o') st') 0 (repeat None nclos) with
   | MFuel => XDiverge
   | MR (Some e) _ => if Nat.eqb e (length s) then XTrue else XFalse
   | MR None _ => XFalse
   end.
+
+(** RegularExpression::matches outside schema mode, without the pre-filters (options F and H): the leftmost start at
+    which match() completes, and the end of that first completion.  (The C++ stops at fLimit - fMinLength; the starts
+    beyond cannot complete, so trying them changes nothing.) *)
+Inductive sres : Type := SNone | SFound (a b : nat) | SDiverge.
+
+Definition xsearch_tok (w : sw) (fuel : nat) (sl : bool) (t : tok) (s : list N) : sres :=
+  let (o, nclos) := compile w true t HNull 0 in
+  (fix go (n : nat) (start : nat) : sres :=
+     match omatch w true sl s fuel o (fun o' st' => MR (Some o') st') start (repeat None nclos) with
+     | MFuel => SDiverge
+     | MR (Some e) _ => SFound start e
+     | MR None _ => match n with O => SNone | S n' => go n' (S start) end
+     end) (length s) 0%nat.
 
 (** pattern text -> answer *)
 Inductive answer : Type := AParseError | ARuntime | AUnsupported | ACrash | AMatch (r : list xres).
